@@ -53,8 +53,8 @@ func SlotCtx[T Ev, S Tag](ctx context.Context, e T) {
 // SubOpts are the subscription options of the alphabet.
 type SubOpts struct {
 	Once, Async, Sequential bool
-	Filter                   int // 0 none, 1 even ids only, 2 reject all
-	Ctx                      bool
+	Filter                  int // 0 none, 1 even ids only, 2 reject all
+	Ctx                     bool
 }
 
 // TypeOps is the ebu API instantiated for one pooled type.
@@ -67,8 +67,13 @@ type TypeOps struct {
 	Clear  func(bus *eventbus.EventBus)
 	Pub    func(bus *eventbus.EventBus, id int)
 	PubCtx func(bus *eventbus.EventBus, ctx context.Context, id int)
-	Has    func(bus *eventbus.EventBus) bool
-	Count  func(bus *eventbus.EventBus) int
+	// SubCustom subscribes a fresh closure (so it has its own identity only through the
+	// returned unsubscribe function) whose body and filter are given by the harness.
+	SubCustom func(bus *eventbus.EventBus, body func(ctx context.Context, id int), filter func(id int) bool, o SubOpts) (unsub func() error, err error)
+	// SubReplay is SubscribeWithReplay[T] with the plain slot handler.
+	SubReplay func(ctx context.Context, bus *eventbus.EventBus, subID string, slot int, o SubOpts) error
+	Has       func(bus *eventbus.EventBus) bool
+	Count     func(bus *eventbus.EventBus) int
 }
 
 func mkOps[T Ev](idx int) *TypeOps {
@@ -118,11 +123,37 @@ func mkOps[T Ev](idx int) *TypeOps {
 			}
 			return eventbus.Unsubscribe[T](bus, plain[slot])
 		},
-		Clear:  func(bus *eventbus.EventBus) { eventbus.Clear[T](bus) },
-		Pub:    func(bus *eventbus.EventBus, id int) { eventbus.Publish(bus, T{ID: id}) },
-		PubCtx: func(bus *eventbus.EventBus, ctx context.Context, id int) { eventbus.PublishContext(bus, ctx, T{ID: id}) },
-		Has:    func(bus *eventbus.EventBus) bool { return eventbus.HasHandlers[T](bus) },
-		Count:  func(bus *eventbus.EventBus) int { return eventbus.HandlerCount[T](bus) },
+		Clear: func(bus *eventbus.EventBus) { eventbus.Clear[T](bus) },
+		Pub:   func(bus *eventbus.EventBus, id int) { eventbus.Publish(bus, T{ID: id}) },
+		PubCtx: func(bus *eventbus.EventBus, ctx context.Context, id int) {
+			eventbus.PublishContext(bus, ctx, T{ID: id})
+		},
+		SubCustom: func(bus *eventbus.EventBus, body func(ctx context.Context, id int), filter func(id int) bool, o SubOpts) (func() error, error) {
+			var l []eventbus.SubscribeOption
+			if o.Once {
+				l = append(l, eventbus.Once())
+			}
+			if o.Async {
+				l = append(l, eventbus.Async())
+			}
+			if o.Sequential {
+				l = append(l, eventbus.Sequential())
+			}
+			if filter != nil {
+				l = append(l, eventbus.WithFilter(func(e T) bool { return filter(e.GetID()) }))
+			}
+			if o.Ctx {
+				fn := eventbus.ContextHandler[T](func(ctx context.Context, e T) { body(ctx, e.GetID()) })
+				return func() error { return eventbus.Unsubscribe[T](bus, fn) }, eventbus.SubscribeContext(bus, fn, l...)
+			}
+			fn := eventbus.Handler[T](func(e T) { body(nil, e.GetID()) })
+			return func() error { return eventbus.Unsubscribe[T](bus, fn) }, eventbus.Subscribe(bus, fn, l...)
+		},
+		SubReplay: func(ctx context.Context, bus *eventbus.EventBus, subID string, slot int, o SubOpts) error {
+			return eventbus.SubscribeWithReplay(ctx, bus, subID, plain[slot], opts(slot, o)...)
+		},
+		Has:   func(bus *eventbus.EventBus) bool { return eventbus.HasHandlers[T](bus) },
+		Count: func(bus *eventbus.EventBus) int { return eventbus.HandlerCount[T](bus) },
 	}
 }
 
